@@ -121,7 +121,13 @@ class ExtMethod:
                 mk = self.raises[k - 1]
                 exc = mk(I) if not isinstance(mk, type) else mk_exc(mk)
                 I.ctx.emit(f"{self_obj.cls.__name__}.{self.name}!raise", self_obj, tuple(args), dict(kwargs))
+                # for the native replay: which call of this collaborator method failed, and with what
+                full = f"{self_obj.cls.__name__}.{self.name}"
+                nth = sum(1 for r in I.ctx.sync_outcomes if r["name"] == full)
+                I.ctx.sync_outcomes.append({"name": full, "nth": nth, "exc_sym": exc})
                 raise PyRaise(exc)
+            full = f"{self_obj.cls.__name__}.{self.name}"
+            I.ctx.sync_outcomes.append({"name": full, "nth": sum(1 for r in I.ctx.sync_outcomes if r["name"] == full)})
         if self.fn is not None:
             return self.fn(I, self_obj, args, kwargs)
         if self.effect and not I.native and not self.is_async:
